@@ -26,6 +26,10 @@ type Explorer struct {
 
 var X = &Explorer{}
 
+// Native: do not impose an order at all (Go's own random iteration order) — used only for the
+// supplementary sampling pass.
+var Native bool
+
 func fact(n int) int {
 	f := 1
 	for i := 2; i <= n; i++ {
@@ -113,6 +117,9 @@ func Keys[K comparable, V any](m map[K]V) []K {
 	for k := range m {
 		keys = append(keys, k)
 	}
+	if Native {
+		return keys
+	}
 	sort.Slice(keys, func(i, j int) bool { return canon(keys[i]) < canon(keys[j]) })
 	out := make([]K, len(keys))
 	for i, p := range order(len(keys)) {
@@ -123,6 +130,9 @@ func Keys[K comparable, V any](m map[K]V) []K {
 
 // ReflectKeys reorders the result of reflect.Value.MapKeys().
 func ReflectKeys(keys []reflect.Value) []reflect.Value {
+	if Native {
+		return keys
+	}
 	sort.Slice(keys, func(i, j int) bool {
 		return canon(keys[i].Interface()) < canon(keys[j].Interface())
 	})
